@@ -55,6 +55,8 @@ def dest_bytes(obs, x):
                 return f.read()
         except FileNotFoundError:
             return None
+        except IsADirectoryError:
+            return ('dir', sorted(os.listdir(x.dest)))
     return x.dest.getvalue()
 
 
@@ -405,6 +407,13 @@ class DirWatch:
             for x in obs.xfers:
                 if x.kind != 'download' or not isinstance(x.dest, str) or x.fifo_reader is not None:
                     continue
+                if x.spec.get('dst_is_dir'):
+                    if not os.path.isdir(x.dest) or sorted(os.listdir(x.dest)) != ['keep']:
+                        if len(self.violations) < 5:
+                            self.violations.append(V(f'{x.label}: the directory at the destination name was changed (observed at {key}/{phase})',
+                                                     **base_mech(obs, x), sym='dir-destination-changed'))
+                    self.states.add((x.label, 'dir'))
+                    continue
                 try:
                     with open(x.dest, 'rb') as f:
                         cur = f.read()
@@ -439,6 +448,13 @@ def fs_oracle(obs, x):
                      **mech, sym='temp-left', outcome=x.outcome))
     cur = dest_bytes(obs, x)
     cancelled = bool([e for e in obs.events if e['kind'] == 'cancel.begin'])
+    if x.spec.get('dst_is_dir'):
+        # nothing can be published under a name that is an existing non-empty directory
+        if x.outcome == 'success':
+            out.append(V(f'{x.label}: the destination name is a directory, yet the download reported success', **mech, sym='success-onto-directory'))
+        if cur != ('dir', ['keep']):
+            out.append(V(f'{x.label}: the directory at the destination name was changed: now {cur!r}', **mech, sym='dir-destination-changed'))
+        return out
     if x.outcome == 'success':
         if cur != x.data:
             out.append(V(f'{x.label}: success but destination is {None if cur is None else len(cur)} bytes', **mech, sym='success-incomplete'))
